@@ -90,7 +90,7 @@ def main():
                 rc, tail = run_suite(tmp, lib)
                 print('%-4s suite on mutated copy: rc=%d %s' % (mid, rc, tail))
             env = dict(os.environ, VERIF_YAML_LIB=lib)
-            cmd = [os.path.join(VERIF, 'check'), check, '--tier', args.tier, '--no-selfcheck']
+            cmd = [os.path.join(VERIF, 'check'), check, '--tier', args.tier, '--no-selfcheck', '--no-evidence']
             if args.runs:
                 cmd += ['--runs', str(args.runs)]
             r = subprocess.run(cmd, env=env, capture_output=True, text=True)
